@@ -214,3 +214,44 @@ PROPS["C13"] = {
                 "thorough": {"pairs_with_natted_connector": 100000}},
     "assumptions": ["NAT hops are the library's sim::nat placed as last hop of a node's outgoing route"],
 }
+
+_OPS_RULE = ("cases = the complete product (base scenario) x (event boundary k, every k in the thorough tier, every 3rd in quick) x (participating object) x "
+             "(cancel, close, destroy, supersede with a same-kind operation, move-construct then destroy the source) plus one 'throw from the next handler' per boundary; "
+             "15 base scenarios cover timer waits, TCP connect (to listener / to nothing), read, write blocked on the window, wait-for-read, the three accept overloads "
+             "(client present / later / never), UDP receive_from / receive / wait_read / deferred wait_write, TCP and UDP resolvers, and bulk transfers through lossy hops "
+             "whose drops are reported long after the send. The boundary is reached through the step hook. Non-trivial = the intervention hit an operation that was "
+             "outstanding on the object; distinct = distinct (scenario, object, boundary, intervention).")
+
+PROPS["C04"] = {
+    "level": "fault_enumeration",
+    "claim": {
+        "technique": "runtime monitoring with fault enumeration: tracked completion handlers (invocation count, inline flag, error code) evaluated at quiescence after an intervention placed at every event boundary via the step hook, then after a final drain",
+        "text": "Every handler given to the library is a tracked functor, so 'invoked twice', 'ran inside the initiating call', 'never invoked' and 'wrong error code for an operation that cannot complete naturally' are observed directly; the intervention is placed between every two handler executions of each base scenario. After the drain (all objects destroyed, run to quiescence) every operation must have been invoked exactly once.",
+        "note": "Superseding async_connect is excluded (asserted precondition); interventions happen only at event boundaries, never inside the object's own handler; for operations that may complete naturally 'aborted or the natural result' is accepted, as the statement allows.",
+        "ref": "DESIGN.md 3/C04",
+    },
+    "rule": _OPS_RULE,
+    "jobs": [{"engine": "ops"}],
+    "require": {"quick": {"hit_pending_operation:tcp.socket:cancel": 500, "hit_pending_operation:tcp.acceptor:destroy": 100, "hit_pending_operation:udp.socket:close": 50,
+                          "hit_pending_operation:resolver:destroy": 20, "hit_pending_operation:timer:cancel": 10, "applied:supersede": 1000},
+                "thorough": {"hit_pending_operation:tcp.socket:cancel": 1500}},
+    "assumptions": ["the 'never inline' and 'at most once' monitors also run inside every other engine (reported there under C04)"],
+    "timeout": {"quick": 1500, "thorough": 14400},
+}
+
+PROPS["C12"] = {
+    "level": "fault_enumeration",
+    "claim": {
+        "technique": "sanitizers as primary oracle (ASan + UBSan + libstdc++ assertions + library asserts, process death attributed per case) over the fault enumeration of C04, plus position-coded bystander traffic and exception propagation checks",
+        "text": "The same product of scenario x boundary x object x intervention runs inside the sanitized build; any report, assertion or signal kills the process and is attributed to the case. Bystander TCP and UDP exchanges on separate nodes must complete exactly; a thrown user exception must come out of run() unchanged and both destruction orders must be clean. The thorough tier repeats everything with NDEBUG (the shipped configuration).",
+        "note": "A clean sanitizer run is not memory safety (intra-object overflows, reuse after quarantine); moves are only applied to sockets with no operation outstanding, as the statement requires.",
+        "ref": "DESIGN.md 3/C12",
+    },
+    "rule": _OPS_RULE,
+    "jobs": [{"engine": "ops"},
+             {"name": "ndebug", "engine": "ops", "variant": "asan-ndebug", "tiers": ("thorough",)}],
+    "require": {"quick": {"applied:destroy": 3000, "applied:close": 3000, "applied:move-then-destroy-source": 200, "exceptions_propagated": 1000},
+                "thorough": {"applied:destroy": 10000}},
+    "assumptions": ["bystanders run on their own nodes and route so nothing the target does can legitimately affect them"],
+    "timeout": {"quick": 1500, "thorough": 14400},
+}
